@@ -228,6 +228,16 @@ func workerBatch(t *testing.T, job *Job) {
 				sb = append(sb, l...)
 				sb = append(sb, '\n')
 			}
+			var roles []string
+			for role := range res.RoleLogs {
+				roles = append(roles, role)
+			}
+			sort.Strings(roles)
+			for _, role := range roles {
+				for _, l := range res.RoleLogs[role] {
+					sb = append(sb, ("[" + role + "] " + l + "\n")...)
+				}
+			}
 			os.WriteFile(filepath.Join(job.TraceDir, fmt.Sprintf("%d.txt", i)), sb, 0o644)
 		}
 		if job.Hashes {
